@@ -91,7 +91,7 @@ PROPS = {
    'nontrivial': lambda r: r.get('ops', 0) >= 10,
  },
  'C12': {
-   'families': [('c12_holes', 3, ALLU), ('c12_remote', 1, ALL), ('c09_exit', 1, ALL), ('c12_bigarena', 0.3, ALLU)],
+   'families': [('c12_holes', 3, ALLU), ('c12_remote', 1, ALL), ('c09_exit', 1, ALL), ('c10_single', 1, ALL), ('c12_bigarena', 0.3, ALLU)],
    'runs': {'quick': 2400, 'thorough': 150000},
    'rule': 'non-trivial = at least one heap walk was compared block-by-block with the shadow heap; distinct = distinct API result hash (and schedule signature for the multi-threaded families)',
    'nontrivial': lambda r: sw(r, 'visit_checked') > 0,
